@@ -90,6 +90,18 @@ func main() {
 				c = genC01(r, gidx, *tier)
 			}
 			runSolve(e, idx, c, *prop == "C06")
+		case "S01", "S02", "S10", "S14", "T01", "T02", "T10":
+			var c *SnapCase
+			if desc != "" {
+				c = &SnapCase{}
+				mustJSON(desc, c)
+				c.P.norm()
+			} else if (*prop)[0] == 'T' {
+				c = genTrace(r, *prop, gidx, *tier)
+			} else {
+				c = genSnap(r, *prop, gidx, *tier)
+			}
+			runSnap(e, idx, c)
 		case "C03":
 			var c *OptCase
 			if desc != "" {
